@@ -78,6 +78,14 @@ def apply_ops(structure, ops):
             R = geom.axis_permutations()[op["k"]]
             t = np.array(op.get("trans", [0, 0, 0]), dtype=float)
             s = rebuild(s, coord_fn=lambda ri, p, R=R, t=t: R @ p + t)
+        elif k == "atom-to-origin":
+            # a pure translation that puts one base / sugar atom of a random nucleotide EXACTLY on (0, 0, 0)
+            rng = random.Random(op["seed"])
+            cands = [(r, a) for r in s.residues for a in r.atoms if a.name in ("N1", "N9", "C1'", "C2", "C4", "C6", "N3", "O2'", "P") and len(r.atoms) > 10]
+            if cands:
+                r0, a0 = rng.choice(cands)
+                t = -np.array([a0.x, a0.y, a0.z], dtype=float)
+                s = rebuild(s, coord_fn=lambda ri, p, t=t: p + t)
         elif k == "jitter":
             rng = random.Random(op["seed"])
             sig = op["sigma"]
@@ -184,6 +192,31 @@ def apply_ops(structure, ops):
                 return r.label, ResidueAuth(first, r.auth.number, r.auth.icode, r.auth.name)
 
             s = rebuild(s, relabel=relabel)
+        elif k == "displaced-copies":
+            # the structure plus n slightly displaced copies stored as further chains of the same model (overlapping
+            # conformers / superposed ensemble members): many more neighbours per atom and per base than usual
+            from rnapolis import tertiary
+            from rnapolis.common import ResidueAuth, ResidueLabel
+
+            rng = random.Random(op["seed"])
+            chains = []
+            for r in s.residues:
+                if r.chain not in chains:
+                    chains.append(r.chain)
+            pool = [c for c in "QRSTUVWXYZqrstuvwxyz" if c not in chains]
+            res = list(s.residues)
+            for c in range(op.get("n", 3)):
+                d = np.array([rng.gauss(0, 1) for _ in range(3)])
+                d = d / np.linalg.norm(d) * rng.uniform(0.7, 1.3)
+                ren = {ch: pool[(c * len(chains) + k2) % len(pool)] for k2, ch in enumerate(chains)}
+
+                def relabel(ri, r, ren=ren):
+                    lab = ResidueLabel(ren[r.chain], r.label.number, r.label.name) if r.label is not None else None
+                    auth = ResidueAuth(ren[r.chain], r.auth.number, r.auth.icode, r.auth.name) if r.auth is not None else None
+                    return lab, auth
+
+                res += list(rebuild(s, coord_fn=lambda ri, p, d=d: p + d, relabel=relabel).residues)
+            s = tertiary.Structure3D(res)
         elif k == "split-chain":
             # the last `tail` residues of the first chain are listed after the next chain
             # (modified residues / ligands of a chain listed at the end of a file): chain A, chain B, chain A
